@@ -79,6 +79,8 @@ def trace_specs(tier, seed, variants_of, n_quick=10, n_thorough=80, backends=("n
             specs[-1]["fs"] = [1e-6, 2.5e-4, 1e6][(i // 5) % 3]
             if (i // 5) % 2 == 0:
                 specs[-1].update(sched="vectorized_ltf", Lmin=rnd.choice([1, 64]))      # the default scheduler walks a lookup grid in Hz
+            if any(v[0] == "relabel" for v in specs[-1]["variants"]):
+                specs[-1]["variants"] = list(specs[-1]["variants"]) + [("relabelx", 1.0 / specs[-1]["fs"]), ("relabelx", 86400.0)]   # back to 1 Hz; seconds <-> days
         if i % 5 == 2:            # the same kind of record in tiny or huge physical units (1e-12, 1e9)
             specs[-1]["amp"] = 2.0 ** -40 if i % 2 == 0 else 2.0 ** 30
         if i % 5 == 4:            # a record with > 1e17 power dynamic range between bins: needs the 200 dB window and order -1/0 only
@@ -87,7 +89,8 @@ def trace_specs(tier, seed, variants_of, n_quick=10, n_thorough=80, backends=("n
             # own size (rounding "relative to the size of the record"): such records are rescaled by powers of two only
             specs[-1]["variants"] = [(("scale", -4, 1, 2, 1) if v[0] == "scale" else ("gain", -4.0) if v[0] == "gain" else v) for v in specs[-1]["variants"]]
     for e in extra:
-        specs.append(dict(e, seed=rnd.randrange(2 ** 31), variants=variants_of(rnd)))
+        v = variants_of(rnd)
+        specs.append(dict(e, seed=rnd.randrange(2 ** 31), variants=e.get("variants") or v))
     return specs
 
 
